@@ -57,7 +57,7 @@ def run(tier, seed):
                            "direction": direction},
                           f"active_vertices_connected(acyclic={job['acyclic']}) {direction} a pattern the definition "
                           f"{'rejects' if m['observed'] is True else 'admits'}",
-                          {"obj": job["obj"], "acyclic": job["acyclic"], "form": job["form"], "prim": job["prim"], "flip": job.get("flip", 0),
+                          {"obj": job["obj"], "id": job["id"], "acyclic": job["acyclic"], "form": job["form"], "prim": job["prim"], "flip": job.get("flip", 0),
                            "pattern": m["pattern"], "active": GR.bits_of(m["pattern"], n),
                            "expected": m["expected"], "observed": m["observed"]})
     emitted = GC.pmap(GR.emit_conn, emitjobs)
@@ -103,7 +103,7 @@ def replay(path):
             print(json.dumps(c)[:600])
             bad += 1
             continue
-        job = {"obj": c["obj"], "acyclic": c["acyclic"], "form": c["form"], "prim": c["prim"], "flip": c.get("flip", 0),
+        job = {"obj": c["obj"], "id": c.get("id", 0), "acyclic": c["acyclic"], "form": c["form"], "prim": c["prim"], "flip": c.get("flip", 0),
                "patterns": [c["pattern"]], "expects": [c["expected"]]}
         mism = GR.run_conn(job)
         print(json.dumps({"obj": c["obj"], "acyclic": c["acyclic"], "form": c["form"], "active": c["active"],
